@@ -1665,6 +1665,9 @@ fn run_keyed<K: KeyKind>(case: &Case, out: &mut impl Write) {
                                 .set_protected_size(q)
                                 .finalize::<K, TV>(),
                             "frombuilder" => SegmentedCache::<K, TV>::from_builder(SegmentedCacheBuilder::new(p, q)),
+                            // one setter on a builder that already carries (other) sizes: the untouched size must survive
+                            "resetprot" => SegmentedCacheBuilder::new(p, q + 3).set_protected_size(q).finalize::<K, TV>(),
+                            "resetprob" => SegmentedCacheBuilder::new(p + 2, q).set_probationary_size(p).finalize::<K, TV>(),
                             _ => SegmentedCache::<K, TV>::new(p, q),
                         };
                         r.map(|c| SlruComp { c }).map_err(|e| errname(&format!("{:?}", e)))
